@@ -119,7 +119,7 @@ def random_strings(rng, alphabet, n, minlen, maxlen):
 #   arg = (kind, [body])
 # Adjacent ('t', ..) entries are merged before comparison on both sides.
 
-SAFE_TEXT_STARTS = ['. ', ', ', '; ', '! ', '1 ', '-- ']
+SAFE_TEXT_STARTS = ['. ', ', ', '; ', '! ', '1 ', '-- ', '@ ', '@z ', '= ']
 WORDS = ['a', 'b', 'foo', 'bar baz', 'x y', 'Hello', 'w', 'z1', 't.']
 # the last three collide with names the library uses internally (TexText is
 # named 'text', groups 'BraceGroup', \[..\] 'displaymath'): a command of that
